@@ -60,9 +60,18 @@ const (
 	_refStartTag = 0x51
 )
 
+// identity of an encoded object, list or map: two values are the same only if the
+// address, the type and (for slices) the length are the same. A struct and its first
+// field, or two slices of different length over one array, share nothing but the address.
+type _refKey struct {
+	addr   unsafe.Pointer
+	typ    reflect.Type
+	length int
+}
+
 // used to ref object,list,map
 type _refElem struct {
-	// record the kind of target, objects are the same only if the address and kind are the same
+	// the kind of target
 	kind reflect.Kind
 
 	// ref index
@@ -88,10 +97,12 @@ func (e *Encoder) checkEncodeRefMap(v reflect.Value) (int, bool) {
 		addr unsafe.Pointer
 	)
 
+	target := v
 	if v.Kind() == reflect.Ptr {
 		for v.Elem().Kind() == reflect.Ptr {
 			v = v.Elem()
 		}
+		target = v.Elem()
 		kind = v.Elem().Kind()
 		if kind == reflect.Slice || kind == reflect.Map {
 			addr = unsafe.Pointer(v.Elem().Pointer())
@@ -121,18 +132,18 @@ func (e *Encoder) checkEncodeRefMap(v reflect.Value) (int, bool) {
 		}
 	}
 
-	if elem, ok := e.refMap[addr]; ok {
-		// the array addr is equal to the first elem, which must ignore
-		if elem.kind == kind {
-			// fmt.Printf("-----> find ref: %d, %p, %v, %v\n", elem.index, addr, kind, v)
-			return elem.index, ok
-		}
-		return 0, false
+	key := _refKey{addr: addr, typ: target.Type()}
+	if kind == reflect.Slice {
+		key.length = target.Len()
+	}
+	if elem, ok := e.refMap[key]; ok {
+		// fmt.Printf("-----> find ref: %d, %p, %v, %v\n", elem.index, addr, kind, v)
+		return elem.index, ok
 	}
 
 	n := e.refCount
 	e.refCount++
-	e.refMap[addr] = _refElem{kind, n}
+	e.refMap[key] = _refElem{kind, n}
 	// fmt.Printf("---> add ref: %d, %p, %v, %v\n", n, addr, kind, v)
 	return 0, false
 }
